@@ -156,6 +156,12 @@ func indexableHint(f *hydrapb.TreasureFilter) (BucketHint, bool) {
 	if strings.Contains(path, "[*]") || strings.Contains(path, "#len") {
 		return BucketHint{}, false
 	}
+	// A labelled leg has to be evaluated per row so that its label reaches
+	// SearchResultMeta.MatchedLabels; consuming it in the bucket lookup
+	// would drop the label.
+	if f.GetLabel() != "" {
+		return BucketHint{}, false
+	}
 	switch f.GetOperator() {
 	case hydrapb.Relational_EQUAL:
 		v, ok := compareValueToAny(f)
